@@ -2,6 +2,8 @@ package main
 
 import (
 	"bytes"
+	"fmt"
+	"sync"
 	"io/ioutil"
 	"os"
 	"path/filepath"
@@ -126,4 +128,35 @@ func opMeta(j Job) Res {
 		return Res{"err": err.Error()}
 	}
 	return Res{"name": name, "cmd": cmd}
+}
+
+func init() {
+	ops["generate_concurrent"] = opGenerateConcurrent
+}
+
+// generate_concurrent: {"cases":[{"files":…}…]} — every case is generated in its own
+// goroutine at the same time (one process: shared package-level state, race detector
+// when the harness is built with -race); -> {"outs":[{ok, out, stderr}…]}
+func opGenerateConcurrent(j Job) Res {
+	cases, _ := j["cases"].([]interface{})
+	outs := make([]interface{}, len(cases))
+	var wg sync.WaitGroup
+	start := make(chan struct{})
+	for i, c := range cases {
+		wg.Add(1)
+		go func(i int, c map[string]interface{}) {
+			defer wg.Done()
+			defer func() {
+				if e := recover(); e != nil {
+					outs[i] = map[string]interface{}{"panic": fmt.Sprint(e)}
+				}
+			}()
+			<-start
+			r := opGenerate(Job(c))
+			outs[i] = map[string]interface{}(r)
+		}(i, c.(map[string]interface{}))
+	}
+	close(start)
+	wg.Wait()
+	return Res{"outs": outs}
 }
